@@ -297,6 +297,8 @@ def refined_reach(body, starts, blocked_edges=()):
                 y = op_local(rv['ops'][0])
                 if y in st and st[y] in (0, 1):
                     st[dst] = ('poll', st[y])
+            elif rv['k'] == 'use' and op_const(rv['op']) is not None and op_const(rv['op']).get('ty') == 'bool' and 'val' in op_const(rv['op']):
+                st[dst] = ('b', int(op_const(rv['op'])['val']))       # a flag set on this path (`break true` / `done = false`)
             elif rv['k'] == 'use':
                 pl = op_place(rv['op'])
                 if pl and not pl['p'] and pl['l'] in st:
@@ -320,7 +322,7 @@ def refined_reach(body, starts, blocked_edges=()):
         elif t['k'] == 'switch':
             l = op_local(t['discr'])
             v = st.get(l) if l is not None else None
-            if isinstance(v, tuple) and v[0] == 'd':
+            if isinstance(v, tuple) and v[0] in ('d', 'b'):
                 tgt = t['otherwise']
                 for val, tb in t['targets']:
                     if int(val) == v[1]:
@@ -342,13 +344,20 @@ def awaited_output_local(body, flow, call_block):
     in `call_block` (the `(poll as Ready).0` move), or None."""
     t = body.term(call_block)
     fwd = flow.forward([t['dest']['l']], stop=[0])
+    cands = []
     for b, j, s in body.assigns():
         rv = s['rv']
         if rv['k'] == 'use':
             pl = op_place(rv['op'])
             if pl and pl['l'] in fwd and any(isinstance(e, dict) and e.get('n') == 'Ready' for e in pl['p']):
-                return s['lhs']['l']
-    return None
+                cands.append((b, s['lhs']['l']))
+    if len(cands) > 1:
+        # the call sits inside an await-inlined helper: the helper's own output flows on into the caller's await.  The output of THIS
+        # await is the one every other candidate is reached through.
+        for b, l in cands:
+            if all(b == b2 or body.dominates(b, b2) for b2, _l in cands):
+                return l
+    return cands[0][1] if cands else None
 
 
 def yields_between(body, a_blocks, b_block):
